@@ -18,63 +18,63 @@ package onepass
 //	}
 func (d *DFA) Search(input []byte, cache *Cache) []int {
 	cache.Reset()
+	if len(cache.work) != len(cache.slots) {
+		cache.work = make([]int, len(cache.slots))
+	}
+	work := cache.work
+	for i := range work {
+		work[i] = -1
+	}
 
 	// Initialize group 0 start (entire match always starts at 0 for anchored search)
-	if len(cache.slots) >= 2 {
-		cache.slots[0] = 0
+	if len(work) >= 2 {
+		work[0] = 0
 	}
 
 	state := d.startState
-	pos := 0
+	found := false
 
-	// Main search loop
-	for pos < len(input) {
-		b := input[pos]
-		class := d.classes.Get(b)
+	// Main search loop. The single thread is followed for as long as it can
+	// consume input; the last match state it passed through is the result
+	// (leftmost-first: a transition flagged match-wins has lower priority than
+	// the match of the state it leaves, so the match ends the search there).
+	for pos := 0; ; pos++ {
+		matchHere := d.matchesAt(state, pos, len(input))
+		if matchHere {
+			// Remember this match: thread slots plus the capture END positions
+			// from the match state's epsilon closure, and the end of group 0
+			copy(cache.slots, work)
+			applyMatchSlots(cache.slots, d.getMatchSlots(state), pos)
+			if len(cache.slots) >= 2 {
+				cache.slots[1] = pos
+			}
+			found = true
+		}
+
+		if pos == len(input) {
+			break
+		}
+
+		class := d.classes.Get(input[pos])
 		trans := d.getTransition(state, class)
 
-		// Check for dead state (no match)
-		if trans.IsDead() {
-			return nil
+		// Dead state: the thread ends here, an earlier match stands
+		if trans.IsDead() || (matchHere && trans.IsMatchWins()) {
+			break
 		}
 
 		// Update capture slots BEFORE consuming byte
 		// Slots represent epsilon transitions leading TO this byte transition
 		// They should be recorded at the current position (before advancing)
-		trans.UpdateSlots(cache.slots, pos)
+		trans.UpdateSlots(work, pos)
 
-		// Consume the byte AFTER updating slots
-		pos++
-
-		// Transition to next state
-		nextState := trans.NextState()
-
-		// Check for match (leftmost-first: return on first match if match-wins)
-		if trans.IsMatchWins() && d.isMatchState(nextState) {
-			// Apply match slots (capture END positions from match state's epsilon closure)
-			applyMatchSlots(cache.slots, d.getMatchSlots(nextState), pos)
-			// Set end of entire match (group 0)
-			if len(cache.slots) >= 2 {
-				cache.slots[1] = pos
-			}
-			return cache.slots
-		}
-
-		state = nextState
+		state = trans.NextState()
 	}
 
-	// Check final state for match
-	if d.isMatchState(state) {
-		// Apply match slots at end of input (capture END positions)
-		applyMatchSlots(cache.slots, d.getMatchSlots(state), len(input))
-		// Set end of entire match to end of input
-		if len(cache.slots) >= 2 {
-			cache.slots[1] = len(input)
-		}
-		return cache.slots
+	if !found {
+		return nil
 	}
-
-	return nil
+	return cache.slots
 }
 
 // applyMatchSlots applies the slot mask at the given position.
